@@ -265,11 +265,22 @@ def run_x5(chk, repo):
     deps = lints.dependence(f.node.body)
     params = set(f.all_params)
     n = 0
-    for a in ast.walk(f.node):
-        # dictionary stores whose value is the NEW symbol (upper-case stem + number)
-        if isinstance(a, ast.Assign) and isinstance(a.targets[0], ast.Subscript) and isinstance(a.value, ast.Call) \
+    from sa import reach
+    from sa.cfg import CFG
+    cfg = CFG(f.node)
+    seen = set()
+    for a0 in ast.walk(f.node):
+        # dictionary stores whose value is the NEW symbol (upper-case stem + number); local temporaries resolved
+        if not (isinstance(a0, ast.Assign) and isinstance(a0.targets[0], ast.Subscript)):
+            continue
+        nid = reach.node_of(cfg, a0)
+        val = reach.expand_expr(cfg, nid, a0.value) if nid is not None else a0.value
+        a = ast.Assign(targets=a0.targets, value=val, lineno=a0.lineno)
+        if isinstance(a.value, ast.Call) \
                 and (dotted(a.value.func) or '').endswith('Symbol') and a.value.args \
-                and isinstance(a.value.args[0], ast.JoinedStr) and 'upper' in unparse(a.value.args[0]):
+                and isinstance(a.value.args[0], ast.JoinedStr) and 'upper' in unparse(a.value.args[0]) \
+                and unparse(a.value) not in seen:
+            seen.add(unparse(a.value))
             n += 1
             names_ = {x.id for x in ast.walk(a.value.args[0]) if isinstance(x, ast.Name)}
             cl = lints.closure(deps, names_)
